@@ -21,7 +21,7 @@ Definition presult_eqb (a b : presult) : bool :=
   match a, b with
   | POk x, POk y => manifest_eqb x y
   | PErrEOF, PErrEOF | PCorrupt, PCorrupt | PUnknownVersion, PUnknownVersion | PBadSpecName, PBadSpecName
-  | PBadCount, PBadCount | PBadLock, PBadLock | PBadGcGen, PBadGcGen | PPanic, PPanic => true
+  | PBadCount, PBadCount | PBadLock, PBadLock | PBadGcGen, PBadGcGen | PBadRoot, PBadRoot => true
   | _, _ => false
   end.
 Definition opt_eqb {A} (f : A -> A -> bool) (a b : option A) : bool :=
@@ -61,11 +61,13 @@ Definition snap_inv_b (s : snap) : bool :=
 Inductive tstep := TS (s : step) | TUnlinkAll.     (* TUnlinkAll: PUnlink until the pruner lets go of the LOCK *)
 Definition tres := (N * N * hash * option snap)%type.   (* code, aux (files deleted), returned lock, listing *)
 
-Inductive input := IWrite (m : manifest) | IParse (t : bytes) | ITrace (steps : list tstep).
+Inductive input := IWrite (m : manifest) | IParse (t : bytes) | ITrace (steps : list tstep)
+  | IConj (up : manifest) (cj : list hash) (c : spec).   (* conjoinOperation.updateManifest, first proposal *)
 Inductive obs :=
 | OWrite (t : option bytes) (p : option presult)   (* writeManifest output, parseManifest of that output *)
 | OParse (p : presult)
-| OTrace (l : list tres).
+| OTrace (l : list tres)
+| OConj (new_specs : option (list spec)).            (* None: cannot apply, nothing proposed *)
 Definition case := (input * obs)%type.
 
 Definition empty_dir : dir := {| d_manifest := None; d_tables := []; d_tmpt := []; d_tmpm := []; d_other := [] |}.
@@ -104,6 +106,7 @@ Definition model_obs (i : input) : obs :=
   | IWrite m => let t := write_manifest m in OWrite t (match t with Some x => Some (parse_manifest x) | None => None end)
   | IParse t => OParse (parse_manifest t)
   | ITrace steps => OTrace (run_trace (sys_init empty_dir) steps)
+  | IConj up cj c => OConj (if conj_can_apply up cj then Some (m_specs (conjoin_new up cj c zero_hash)) else None)
   end.
 
 (* the implementation does not list the directory after every sub-step: compare listings where it did *)
@@ -118,6 +121,7 @@ Definition obs_eqb (a b : obs) : bool :=
   | OWrite t p, OWrite t' p' => opt_eqb beq_bytes t t' && opt_eqb presult_eqb p p'
   | OParse p, OParse p' => presult_eqb p p'
   | OTrace l, OTrace l' => list_eqb tres_eqb l l'
+  | OConj a, OConj b => opt_eqb (list_eqb spec_eqb) a b
   | _, _ => false
   end.
 
@@ -157,6 +161,11 @@ Definition oracle (i : input) (o : obs) : bool :=
          else true
   | IParse _, OParse _ => true
   | ITrace steps, OTrace rs => trace_ok steps rs None None
+  | IConj up cj c, OConj o =>      (* a conjoin only shrinks: it proposes upstream's tables and the conjoined one, nothing else *)
+    match o with
+    | None => true
+    | Some l => forallb (fun s => spec_eqb s c || existsb (spec_eqb s) (m_specs up)) l
+    end
   | _, _ => false
   end.
 
